@@ -9,6 +9,8 @@ import json, os, shutil, subprocess, sys, xml.etree.ElementTree as ET
 pid = sys.argv[1]
 suite = "--no-suite" not in sys.argv
 rnd = "2" if "--round2" in sys.argv else ""
+if "--round" in sys.argv:
+    rnd = sys.argv[sys.argv.index("--round") + 1]
 wt = f"/tmp/seed{rnd}_{pid}"
 sd = f"{wt}/_seed"
 base = json.load(open('/root/.vp/BASELINE.json'))
@@ -18,7 +20,7 @@ manifest = json.load(open('/verif/MANIFEST.json'))
 claimed = [c["property_id"] for c in manifest["checks"]]
 def sh(cmd, **k):
     return subprocess.run(cmd, shell=True, capture_output=True, text=True, cwd=wt, env=env, **k)
-for i in (1, 2, 3):
+for i in (1, 2, 3, 4):
     pf = f"{sd}/patch{i}.diff"
     if not os.path.exists(pf):
         continue
@@ -62,7 +64,7 @@ for i in (1, 2, 3):
     sh("git checkout -- . && git clean -fdq -e _seed")
     ok = meta["demo_clean_exit"] == 0 and meta["demo_patched_exit"] != 0 and (not suite or not meta.get("suite_stable_missing"))
     meta["confirmed"] = ok
-    out = f"/verif/seeded/{pid}-{'r2-' if rnd else ''}{i}"
+    out = f"/verif/seeded/{pid}-{('r' + rnd + '-') if rnd else ''}{i}"
     os.makedirs(out, exist_ok=True)
     shutil.copy(pf, f"{out}/patch.diff"); shutil.copy(f"{sd}/demo{i}.py", f"{out}/demo.py")
     if os.path.exists(f"{sd}/note{i}.txt"): shutil.copy(f"{sd}/note{i}.txt", f"{out}/note.txt")
